@@ -38,7 +38,7 @@ var ssb = builder.NewSelectorSpecBuilder(basicnode.Prototype.Any)
 // GenSelector generates a selector spec. plant, if non-nil, is called whenever a
 // recursion limit is chosen and may override it (returning ok=true).
 func GenSelector(r *rand.Rand, o SelOpts, plant func(nesting int, path string) (int64, bool)) datamodel.Node {
-	return genSel(r, o, 0, false, "", plant).Node()
+	return genSel(r, o, 0, false, false, "", plant).Node()
 }
 
 func limitOf(v int64) selector.RecursionLimit {
@@ -48,9 +48,10 @@ func limitOf(v int64) selector.RecursionLimit {
 	return selector.RecursionLimitDepth(v)
 }
 
-func genSel(r *rand.Rand, o SelOpts, depth int, inRec bool, path string, plant func(int, string) (int64, bool)) builder.SelectorSpec {
+func genSel(r *rand.Rand, o SelOpts, depth int, inRec bool, edgeOK bool, path string, plant func(int, string) (int64, bool)) builder.SelectorSpec {
+	// an edge is only legal as the "next" of an all/fields/index/range clause inside a recursion
 	leaf := func() builder.SelectorSpec {
-		if inRec && r.Intn(2) == 0 {
+		if inRec && edgeOK && r.Intn(2) == 0 {
 			return ssb.ExploreRecursiveEdge()
 		}
 		return ssb.Matcher()
@@ -79,7 +80,7 @@ func genSel(r *rand.Rand, o SelOpts, depth int, inRec bool, path string, plant f
 	case 0:
 		return leaf()
 	case 1:
-		return wrap(ssb.ExploreAll(genSel(r, o, depth+1, inRec, path+"/a", plant)))
+		return wrap(ssb.ExploreAll(genSel(r, o, depth+1, inRec, true, path+"/a", plant)))
 	case 2:
 		n := 1 + r.Intn(3)
 		return wrap(ssb.ExploreFields(func(efsb builder.ExploreFieldsSpecBuilder) {
@@ -90,23 +91,23 @@ func genSel(r *rand.Rand, o SelOpts, depth int, inRec bool, path string, plant f
 					continue
 				}
 				used[f] = true
-				efsb.Insert(f, genSel(r, o, depth+1, inRec, path+"/f", plant))
+				efsb.Insert(f, genSel(r, o, depth+1, inRec, true, path+"/f", plant))
 			}
 		}))
 	case 3:
-		return wrap(ssb.ExploreIndex(int64(r.Intn(o.MaxIndex+1)), genSel(r, o, depth+1, inRec, path+"/i", plant)))
+		return wrap(ssb.ExploreIndex(int64(r.Intn(o.MaxIndex+1)), genSel(r, o, depth+1, inRec, true, path+"/i", plant)))
 	case 4:
 		s := int64(r.Intn(o.MaxIndex + 1))
-		return wrap(ssb.ExploreRange(s, s+1+int64(r.Intn(o.MaxIndex+1)), genSel(r, o, depth+1, inRec, path+"/r", plant)))
+		return wrap(ssb.ExploreRange(s, s+1+int64(r.Intn(o.MaxIndex+1)), genSel(r, o, depth+1, inRec, true, path+"/r", plant)))
 	case 5, 6:
 		n := 1 + r.Intn(3)
 		ms := make([]builder.SelectorSpec, n)
 		for i := range ms {
-			ms[i] = genSel(r, o, depth+1, inRec, fmt.Sprintf("%s/|", path), plant)
+			ms[i] = genSel(r, o, depth+1, inRec, false, fmt.Sprintf("%s/|", path), plant)
 		}
 		return wrap(ssb.ExploreUnion(ms...))
 	default:
-		return wrap(ssb.ExploreInterpretAs("unixfs", genSel(r, o, depth+1, inRec, path+"/~", plant)))
+		return wrap(ssb.ExploreInterpretAs("unixfs", genSel(r, o, depth+1, inRec, false, path+"/~", plant)))
 	}
 }
 
@@ -119,9 +120,9 @@ func genRecBody(r *rand.Rand, o SelOpts, depth int, path string, plant func(int,
 	case 1:
 		return ssb.ExploreUnion(ssb.Matcher(), edgePart)
 	case 2:
-		return ssb.ExploreUnion(genSel(r, o, depth+1, true, path+"/|", plant), edgePart)
+		return ssb.ExploreUnion(genSel(r, o, depth+1, true, false, path+"/|", plant), edgePart)
 	default:
-		return ssb.ExploreUnion(edgePart, genSel(r, o, depth+1, true, path+"/|", plant), genSel(r, o, depth+1, true, path+"/|", plant))
+		return ssb.ExploreUnion(edgePart, genSel(r, o, depth+1, true, false, path+"/|", plant), genSel(r, o, depth+1, true, false, path+"/|", plant))
 	}
 }
 
